@@ -83,6 +83,10 @@ public:
 
     // finally clean all messages
     _stored_events.clear();
+
+    // the next message is stored at the beginning again. Keeping the index of a wrapped ring would
+    // replay the next messages out of order or read a slot that does not exist yet
+    _index = 0;
   }
 
   /***/
